@@ -33,9 +33,9 @@ pub struct C06 {
     pub ctx: AllCtx,
     cases: Vec<Case>,
     frames_q: Vec<EFrame>,
-    items_q: Vec<(usize, Item)>,
+    items_q: Vec<(usize, Item, bool)>,
     frames_t: Vec<EFrame>,
-    items_t: Vec<(usize, Item)>,
+    items_t: Vec<(usize, Item, bool)>,
 }
 
 fn world_cases(ctx: &AllCtx) -> Vec<Case> {
@@ -60,7 +60,7 @@ fn world_cases(ctx: &AllCtx) -> Vec<Case> {
     v
 }
 
-fn build(ctx: &AllCtx, shapes: u64, master: u64) -> (Vec<EFrame>, Vec<(usize, Item)>) {
+fn build(ctx: &AllCtx, shapes: u64, master: u64) -> (Vec<EFrame>, Vec<(usize, Item, bool)>) {
     let mut frames = Vec::new();
     let mut items = Vec::new();
     let mut cases: Vec<Case> = all_cases(ctx).into_iter().filter(|c| c.login.is_some()).collect();
@@ -100,17 +100,25 @@ fn build(ctx: &AllCtx, shapes: u64, master: u64) -> (Vec<EFrame>, Vec<(usize, It
             let bounds: Vec<usize> = f.fields.iter().map(|x| x.off + hl).filter(|b| *b > 0 && *b < bytes.len()).collect();
             let n = bytes.len() as u32;
             let fi = frames.len();
-            items.push((fi, Item::Whole));
-            items.push((fi, Item::Bytewise));
-            items.push((fi, Item::Write));
-            for k in 1..n {
-                if n <= 200 || (n <= 2000 && (k <= 64 || k + 8 >= n || k % 16 == 0)) || (n > 2000 && (k <= 16 || k + 4 >= n || k % 4096 == 0)) {
-                    items.push((fi, Item::Split(k)));
+            // login frames are enumerated a second time through the protocol-parameterised readers (third element true)
+            for proto in [false, true] {
+                if proto && c.login.is_none() {
+                    continue;
                 }
-            }
-            for t in 0..n {
-                if n <= 200 || (n <= 2000 && (t <= 64 || t + 8 >= n || t % 16 == 0)) || (n > 2000 && (t <= 16 || t + 4 >= n || t % 4096 == 0)) {
-                    items.push((fi, Item::Eof(t)));
+                items.push((fi, Item::Whole, proto));
+                items.push((fi, Item::Bytewise, proto));
+                if !proto {
+                    items.push((fi, Item::Write, false));
+                }
+                for k in 1..n {
+                    if n <= 200 || (n <= 2000 && (k <= 64 || k + 8 >= n || k % 16 == 0)) || (n > 2000 && (k <= 16 || k + 4 >= n || k % 4096 == 0)) {
+                        items.push((fi, Item::Split(k), proto));
+                    }
+                }
+                for t in 0..n {
+                    if n <= 200 || (n <= 2000 && (t <= 64 || t + 8 >= n || t % 16 == 0)) || (n > 2000 && (t <= 16 || t + 4 >= n || t % 4096 == 0)) {
+                        items.push((fi, Item::Eof(t), proto));
+                    }
                 }
             }
             frames.push(EFrame { case: c.clone(), bytes, bounds });
@@ -144,6 +152,8 @@ fn read_seq(case: &Case, names: &[String], entry0: &Entry, fl: Flavour, stream: 
     for k in 0..names.len() {
         let entry = match entry0 {
             Entry::Expect(_) => Entry::Expect(names[k].clone()),
+            Entry::ExpectProtocol(_) => Entry::ExpectProtocol(names[k].clone()),
+            Entry::EnumProtocol => Entry::EnumProtocol,
             Entry::Initial if k == 0 => Entry::Initial,
             _ => Entry::Enum,
         };
@@ -207,7 +217,7 @@ impl Check for C06 {
     fn components(&self) -> Value {
         json!({"real": ["wow_login_messages: read/tokio_read/astd_read of every message and opcode enum, helper::expect_*, read_initial_message, write/tokio_write/astd_write", "wow_world_messages header/body readers and writers x3 flavours", "tokio::io::AsyncReadExt::read_exact", "async_std::io::ReadExt::read_exact"],
                "simulated": ["transport (SimPipe with scheduled chunking, Pending, EOF, error at end)", "executor with hand-written waker (both wake disciplines)", "peer (model peer frames)"],
-               "not_exercised": ["tokio/async-std runtimes (only their I/O traits are used by the libraries)", "protocol-parameterised helpers (expect_*_protocol): C14's domain"]})
+               "not_exercised": ["tokio/async-std runtimes (only their I/O traits are used by the libraries)", "protocol-parameterised WRITERS (write_protocol): not reachable through the opcode enums"]})
     }
     fn plan(&self, tier: Tier) -> (u64, u64) {
         match tier {
@@ -225,10 +235,12 @@ impl Check for C06 {
         let mut sr = rng.fork("schedule");
         let mut fr = rng.fork("faults");
         if (i as usize) < items.len() {
-            let (fi, item) = &items[i as usize];
+            let (fi, item, proto) = &items[i as usize];
             let f = &frames[*fi];
             let n = f.bytes.len();
-            let entry = match i % 3 {
+            let entry = if *proto {
+                if i % 2 == 0 { "enum-protocol".to_string() } else { format!("expect-protocol:{}", f.case.name) }
+            } else { match i % 3 {
                 0 => "enum".to_string(),
                 1 => format!("expect:{}", f.case.name),
                 _ => {
@@ -238,7 +250,7 @@ impl Check for C06 {
                         "enum".to_string()
                     }
                 }
-            };
+            } };
             let (kind, stream, sched, what): (&str, Vec<u8>, Schedule, String) = match item {
                 Item::Whole => ("read", f.bytes.clone(), Schedule::whole(), "whole".into()),
                 Item::Bytewise => ("read", f.bytes.clone(), Schedule::bytewise(1), "bytewise+pending".into()),
@@ -246,6 +258,7 @@ impl Check for C06 {
                 Item::Eof(t) => ("read", f.bytes[..*t as usize].to_vec(), Schedule { steps: vec![], tail_chunk: 3, tail_pending: 1, wake_now: false }, format!("eof@{}", t)),
                 Item::Write => ("write", f.bytes.clone(), Schedule::random(&mut sr, n + 4, false), "write".into()),
             };
+            let what = if *proto { format!("{}:protocol", what) } else { what };
             return json!({"kind": kind, "label": format!("{}:{}", f.case.label(), what), "case": case_json(&f.case), "names": [f.case.name], "stream": bytes_to_json(&stream),
                 "bounds": f.bounds, "starts": [0], "entry": entry, "end_error": "", "enumerated": true,
                 "sched_t": sched_json(&sched), "sched_a": sched_json(&sched), "sched_s": sched_json(&Schedule { steps: sched.steps.iter().map(|s| if let Step::Pending(_) = s { Step::Interrupted } else { *s }).collect(), tail_chunk: sched.tail_chunk, tail_pending: 0, wake_now: true })});
@@ -281,9 +294,11 @@ impl Check for C06 {
             }
             names.push(f.name.clone());
         }
-        let entry = match cf.below(4) {
+        let entry = match cf.below(6) {
             0 => format!("expect:{}", names.first().cloned().unwrap_or_default()),
             1 if case.login.is_some() && case.dir == Dir::Client => "initial".to_string(),
+            4 if case.login.is_some() => "enum-protocol".to_string(),
+            5 if case.login.is_some() => format!("expect-protocol:{}", names.first().cloned().unwrap_or_default()),
             _ => "enum".to_string(),
         };
         let end_error = if cf.chance(1, 5) { "ConnectionReset" } else { "" };
